@@ -3,21 +3,24 @@
 (* Text as sequences of Unicode code points.  TLA+ strings are used only   *)
 (* for names drawn from finite ASCII alphabets; StrCps converts them.      *)
 (***************************************************************************)
-EXTENDS Naturals, Integers, Sequences
+EXTENDS Naturals, Integers, Sequences, UniTable
 
 Printable == " !\"#$%&'()*+,-./0123456789:;<=>?@ABCDEFGHIJKLMNOPQRSTUVWXYZ[\\]^_`abcdefghijklmnopqrstuvwxyz{|}~"
 CharCode == [c \in {SubSeq(Printable, i, i) : i \in 1..Len(Printable)} |->
                31 + CHOOSE i \in 1..Len(Printable) : SubSeq(Printable, i, i) = c]
 StrCps(s) == [i \in 1..Len(s) |-> CharCode[SubSeq(s, i, i)]]
 
-IsSpace(c) == c \in {9, 10, 11, 12, 13, 32}
+\* \s and \w are Unicode-aware in the real lexer; the non-ASCII part comes from the generated table UniTable
+IsSpace(c) == c \in {9, 10, 11, 12, 13, 32} \/ c \in UniSpace
 IsDigit(c) == c >= 48 /\ c <= 57
 IsUpper(c) == c >= 65 /\ c <= 90
 IsLower(c) == c >= 97 /\ c <= 122
 IsAlpha(c) == IsUpper(c) \/ IsLower(c)
-IsWord(c)  == IsAlpha(c) \/ IsDigit(c) \/ c = 95
+IsWord(c)  == IsAlpha(c) \/ IsDigit(c) \/ c = 95 \/ c \in UniWord
 IsHex(c)   == IsDigit(c) \/ (c >= 97 /\ c <= 102) \/ (c >= 65 /\ c <= 70)
 IsAscii(c) == (c >= 32 /\ c <= 126) \/ c \in {9, 10, 11, 12, 13}
+\* a code point whose character class the specification knows
+IsKnown(c) == IsAscii(c) \/ c \in UniKnown
 Lower(c) == IF IsUpper(c) THEN c + 32 ELSE c
 Upper(c) == IF IsLower(c) THEN c - 32 ELSE c
 LowerSeq(s) == [i \in 1..Len(s) |-> Lower(s[i])]
